@@ -39,6 +39,27 @@ def gen_seq(rng, enzyme):
         return ''.join(parts)[:n]
     return R.gen_protein(rng, rule, n, extra='UX*', bias=0.45)
 
+def gen_header(rng, j):
+    """FASTA headers: moPepGen style, UniProt style with a free-text tail, spaces and tabs inside"""
+    x = rng.random()
+    if x < 0.35:
+        return 'T%d|%s' % (j, rng.choice(['SNV-1-A-T', 'INDEL', '']))
+    acc = rng.choice(['P%05d' % rng.randrange(3), 'sp|Q%d|X_HUMAN' % rng.randrange(3), 'T%d' % j])
+    tail = rng.choice(['sample=tumour', 'sample=normal', 'x y', 'OS=Homo sapiens  GN=A', 'a\tb', 'v=%d' % j, 'z'])
+    sep = rng.choice([' ', ' ', '  ', '\t'])
+    return acc + sep + tail
+
+def dup_header(rng, h, k):
+    """a header for a further record carrying the same sequence as the record with header h:
+    (a) different first token, (b) same first token but a different tail, (c) identical header"""
+    first = h.split()[0] if h.split() else h
+    x = rng.random()
+    if x < 0.3:
+        return 'D%d|dup %s' % (k, rng.choice(['', 'tail', 'x y'])), 'a'
+    if x < 0.8:
+        return first + rng.choice([' ', '\t', '  ']) + rng.choice(['sample=normal', 'copy %d' % k, 'B', 'sample=tumour 2']), 'b'
+    return h, 'c'
+
 def gen_case(rng, names, i):
     enzyme = rng.choice([None, 'trypsin', 'trypsin', 'trypsin', rng.choice(names), rng.choice(names)])
     method = 'shuffle' if rng.random() < 0.55 else 'reverse'
@@ -50,12 +71,16 @@ def gen_case(rng, names, i):
     n = rng.choice([0, 1, 1, 2, 2, 3, 4, 5, 6, 8])
     targets = []
     for j in range(n):
-        targets.append(['T%d|%s' % (j, rng.choice(['SNV-1-A-T', 'x y', 'INDEL', ''])), gen_seq(rng, enzyme)])
-    # duplicates: same sequence under another header, or a fully identical record
-    if targets and rng.random() < 0.3:
-        for _ in range(rng.randint(1, 2)):
+        targets.append([gen_header(rng, j).rstrip(), gen_seq(rng, enzyme)])
+    # duplicates: the same sequence under (a) another first token, (b) the same first token and another tail,
+    # (c) a fully identical header
+    dupkinds = []
+    if targets and rng.random() < 0.4:
+        for _ in range(rng.randint(1, 3)):
             t = rng.choice(targets)
-            targets.append([t[0] if rng.random() < 0.2 else 'D%d|dup' % len(targets), t[1]])
+            h, kind = dup_header(rng, t[0], len(targets))
+            targets.append([h.rstrip(), t[1]])
+            dupkinds.append(kind)
     # near-collisions for shuffle: permutations of an existing target as further targets
     if targets and rng.random() < 0.3:
         t = rng.choice(targets)
@@ -72,7 +97,7 @@ def gen_case(rng, names, i):
                 max_attempts=rng.choice([0, 1, 2, 3, 5, 30, 30]),
                 decoy_string=rng.choice(['DECOY_', 'rev_', '_REV', 'XXX|']), position=rng.choice(['prefix', 'prefix', 'suffix']),
                 order=order, seed=rng.randrange(0, 2 ** 31), width=rng.choice([0, 0, 60, 7]),
-                orders=[targets, perm], rerun=True)
+                orders=[targets, perm], rerun=True, dupkinds=dupkinds)
 
 def gen_unit(rng, names, i):
     enzyme = rng.choice([None, 'trypsin', 'trypsin', rng.choice(names)])
@@ -178,34 +203,26 @@ def dup_groups(targets):
     return {s for s, hs in by.items() if len(hs) > 1}
 
 # ----------------------------------------------------------------------------- comparison
-def probe_keyhdr(ctx):
-    """which sort key does the code use?  two targets with the same sequence, headers b then a, reverse."""
-    c = dict(kind='run', method='reverse', enzyme=None, nterm=True, cterm=True, pattern='', max_attempts=30,
-             decoy_string='D_', position='prefix', order='target_first', seed=1, width=0,
-             orders=[[['b', 'ACDE'], ['a', 'ACDE']]])
-    r = I.run_cases('c20', [c], jobs=1, tag='c20p')[0]
-    recs = r['runs'][0].get('records', [])
-    return bool(recs) and recs[0][0] == 'a'
-
-def evaluate(ctx, cases, keyhdr):
+def evaluate(ctx, cases):
     impl = I.run_cases('c20', cases, jobs=ctx.jobs, tag='c20')
     # B = the faithful model with the switches translated from the current source (Gen/DecoyCli.v):
     # on the unchanged tree shift 0 + the misspelt exception literal; after the fix identical to A
-    bs, be = O.call('c20_switches', [])
+    bs, be, bk = O.call('c20_switches', [])
+    keyA, keyB = True, (bk != 0)      # A: the specified key (sequence, full header), fixed; B: as translated
     reqs, where = [], []
     for ci, (c, r) in enumerate(zip(cases, impl)):
         if isinstance(r, dict) and '__exc__' in r:
             continue
         if c['kind'] == 'run':
             for oi, (ts, run) in enumerate(zip(c['orders'], r['runs'])):
-                reqs.append(('c20_run', [cfg_val(c, 1, 1, keyhdr), ts, ranks_of(run['queries'], run['stream']), 1]))
+                reqs.append(('c20_run', [cfg_val(c, 1, 1, keyA), ts, ranks_of(run['queries'], run['stream']), 1]))
                 where.append((ci, oi, 'A'))
-                reqs.append(('c20_run', [cfg_val(c, bs, be, keyhdr), ts, run['stream'], 0]))
+                reqs.append(('c20_run', [cfg_val(c, bs, be, keyB), ts, run['stream'], 0]))
                 where.append((ci, oi, 'B'))
         elif c['kind'] == 'fixed':
             cc = dict(c, method='reverse', max_attempts=30, decoy_string='', position='prefix', order='juxtaposed')
-            reqs.append(('c20_fixed', [cfg_val(cc, bs, be, keyhdr), c['seq']])); where.append((ci, 0, 'B'))
-            reqs.append(('c20_fixed', [cfg_val(cc, 1, 1, keyhdr), c['seq']])); where.append((ci, 0, 'A'))
+            reqs.append(('c20_fixed', [cfg_val(cc, bs, be, keyB), c['seq']])); where.append((ci, 0, 'B'))
+            reqs.append(('c20_fixed', [cfg_val(cc, 1, 1, keyA), c['seq']])); where.append((ci, 0, 'A'))
         elif c['kind'] == 'reverse':
             reqs.append(('c20_reverse', [c['seq'], c['fixed']])); where.append((ci, 0, 'U'))
         elif c['kind'] == 'shuffle':
@@ -228,7 +245,7 @@ def evaluate(ctx, cases, keyhdr):
                 stats['fixed=A'] += 1
             elif not spec <= inrange:
                 stats['fixed:D7'] += 1
-                viol.append(dict(what='find_fixed_indices(%s, enzyme=%s) = %s does not contain the cleavage residues %s'
+                viol.append(dict(what='find_fixed_indices(%s, enzyme=%s) = %s does not contain the positions the statement requires to stay (termini, listed residues, cleavage residues) %s'
                                       % (c['seq'], c['enzyme'], r, sorted(spec - inrange)),
                                  replay_obj={'kind': 'case', 'case': c, 'impl': r, 'model_repaired': a, 'model_faithful': b},
                                  no_input=False, finding='D7' if (r == b and bs == 0) else None))
@@ -294,7 +311,7 @@ def evaluate(ctx, cases, keyhdr):
                     for th, tsq in c['orders'][0]:
                         if h in (th, c['decoy_string'] + th, th + c['decoy_string']):
                             yield tsq
-                sig = c['method'] == 'shuffle' and all(any(q in dups for q in owner_seq(h)) for h, _ in diff)
+                sig = bk == 0 and c['method'] == 'shuffle' and all(any(q in dups for q in owner_seq(h)) for h, _ in diff)
                 stats['order-dependent' + ('(C20-dup-order)' if sig else '')] += 1
                 viol.append(dict(what='record set depends on the input order (same seed): %d records differ; method %s; targets %s'
                                       % (len(diff), c['method'], json.dumps(c['orders'][0])[:200]),
@@ -346,14 +363,13 @@ def load_corpus():
 def run(ctx):
     rng = ctx.rng
     names = R.rule_names()
-    keyhdr = probe_keyhdr(ctx)
     n_run = 2500 if ctx.quick else 20000
     n_unit = 5000 if ctx.quick else 50000
     cases = load_corpus()
     ncorp = len(cases)
     cases += [gen_case(rng, names, i) for i in range(n_run)]
     cases += [gen_unit(rng, names, i) for i in range(n_unit)]
-    impl, viol, stats = evaluate(ctx, cases, keyhdr)
+    impl, viol, stats = evaluate(ctx, cases)
     nontriv, dist = set(), collections.Counter()
     for c, r in zip(cases, impl):
         if c['kind'] != 'run':
@@ -364,6 +380,10 @@ def run(ctx):
         dist['run/%s/%s/%s' % (c['method'], 'enzyme' if c['enzyme'] else 'noenzyme', c['order'])] += 1
         if dup_groups(c['orders'][0]):
             dist['run:duplicate-sequences'] += 1
+        for k in c.get('dupkinds', []):
+            dist['run:dup/' + {'a': 'other-first-token', 'b': 'same-first-token-other-tail', 'c': 'identical-header'}[k]] += 1
+        if any(' ' in h or '\t' in h for h, _ in c['orders'][0]):
+            dist['run:headers-with-whitespace'] += 1
         if isinstance(r, dict) and 'runs' in r and r['runs'][0].get('overlap'):
             dist['run:collision-retry-exhausted'] += 1
         if isinstance(r, dict) and 'runs' in r and len(r['runs'][0].get('stream', [])) > sum(1 for _ in c['orders'][0]):
@@ -382,7 +402,7 @@ def run(ctx):
                      'fixed lists. non-trivial = some decoy differs from its target (run) or sequence length >= 3 (unit); distinct by '
                      'full case' % len(names),
                 samples=[{k: v for k, v in cases[ncorp].items()}, cases[-1]],
-                distribution=dict(dist), outcome=dict(stats), sort_key_probe='(seq, header)' if keyhdr else 'seq only',
+                distribution=dict(dist), outcome=dict(stats), sort_key_in_source=O.call('c20_switches', [])[2],
                 corpus_cases=ncorp, violations=thin(viol),
                 assumptions=['random.sample returns a permutation of its argument (hypothesis of the theorems; every recorded call is '
                              'checked: %d calls, %d not a permutation)' % (stats.get('sample-calls', 0), stats.get('sample-not-perm', 0)),
@@ -394,8 +414,7 @@ def run(ctx):
 
 def replay(ctx, obj):
     c = obj['case']
-    keyhdr = probe_keyhdr(ctx)
-    impl, viol, stats = evaluate(ctx, [c], keyhdr)
+    impl, viol, stats = evaluate(ctx, [c])
     return dict(violations=thin(viol))
 
 def search_failing_input(ctx, broken):
@@ -419,8 +438,16 @@ def search_failing_input(ctx, broken):
             if run.get('status') != 'ok' or len(run.get('records', [])) != 2:
                 return {'kind': 'case', 'case': c, 'impl': run,
                         'what': 'option value accepted by the CLI but no decoy is written: %s' % json.dumps({k: c[k] for k in ('method', 'order')})}
-    cases = load_corpus() + [gen_case(ctx.rng, R.rule_names(), i) for i in range(200)]
-    impl, viol, stats = evaluate(ctx, cases, probe_keyhdr(ctx))
+    # sort-key candidates: same sequence under headers that differ (i) everywhere, (ii) only after the first
+    # whitespace-delimited token, (iii) only in the kind of whitespace; shuffle, same seed, two input orders
+    sk = []
+    for hs in (['a', 'b'], ['P12345 sample=tumour', 'P12345 sample=normal'], ['P1 x', 'P1\tx'], ['P1 x', 'P1  x']):
+        for seed in (1, 2, 3):
+            ts = [[h, 'ACDEFGHIKLMN'] for h in hs]
+            sk.append(dict(base, method='shuffle', nterm=False, cterm=False, seed=seed, order='target_first',
+                           orders=[ts, list(reversed(ts))]))
+    cases = sk + load_corpus() + [gen_case(ctx.rng, R.rule_names(), i) for i in range(200)]
+    impl, viol, stats = evaluate(ctx, cases)
     for v in viol:
         if not v.get('finding') and not v.get('no_input'):
             return dict(v['replay_obj'], what=v['what'][:200])
